@@ -291,6 +291,10 @@ def sdkqLine (s : HistState) (t : List String) : Option String :=
 /-- the SDK functions (C20) -/
 def sdkLine (t : List String) : Option String :=
   match t with
+  | ["stf", amt, bps, mx] => do
+    pure (showSdk ((sdkApplyTF (← amt.toNat?) (← bps.toNat?) (← mx.toNat?)).map toString))
+  | ["srf", amt, bps, mx] => do
+    pure (showSdk ((sdkReverseTF (← amt.toNat?) (← bps.toNat?) (← mx.toNat?)).map toString))
   | ["sda", p0, p1, l, up] => do
     pure (showSdk ((sdkDeltaA (← p0.toNat?) (← p1.toNat?) (← l.toNat?) (← b01 up)).map toString))
   | ["sdb", p0, p1, l, up] => do
@@ -655,7 +659,7 @@ partial def loop (h : IO.FS.Stream) (out : IO.FS.Stream) (hist : Option HistStat
       out.putStrLn (match pinoUsableOffset start tick ts with | some k => s!"ok {k}" | none => "ok none")
     | _, _, _ => out.putStrLn "bad-op"
     loop h out hist bm dyn snap
-  | "sda" :: _ | "sdb" :: _ | "sna" :: _ | "snb" :: _ | "sle" :: _ | "spt" :: _ | "slp" :: _ | "stp" :: _ =>
+  | "sda" :: _ | "sdb" :: _ | "sna" :: _ | "snb" :: _ | "sle" :: _ | "spt" :: _ | "slp" :: _ | "stp" :: _ | "stf" :: _ | "srf" :: _ =>
     out.putStrLn ((sdkLine toks).getD "bad-op")
     loop h out hist bm dyn snap
   | ["tfee", bps, mx, _fut, amt, inc] =>
